@@ -262,7 +262,10 @@ class MakeVector(Contract):
     properties = ('C02', 'C19', 'C12', 'C10')
 
     def cases(self):
-        out = [dict(kind='none', convert=False, default=False)]
+        out = [dict(kind='none', convert=False, default=False),
+               # an asset on a coarser frequency than the grid: its steps are longer than the grid steps they start at (C12: limits follow
+               # the length of the ASSET's step)
+               dict(kind='key', convert=True, default=False, coarse=True), dict(kind='scalar', convert=True, default=False, coarse=True)]
         for kind in ('scalar', 'array', 'key', 'dict'):
             for convert in (False, True):
                 for default in ((False, True) if kind == 'dict' else (False,)):
@@ -272,7 +275,7 @@ class MakeVector(Contract):
     def harness(self, H, case):
         from .common import mk_restricted
         g = mk_root_grid(H, tz=None)
-        R = mk_restricted(H, g)
+        R = mk_restricted(H, g, coarse=bool(case.get('coarse')))
         g.set('restricted', R)
         n = R.get('T')
         rI = R.get('__fun__')['I']
@@ -345,6 +348,11 @@ class MakeVector(Contract):
         elif kind == 'key':
             # C19: "already-gridded price arrays pass through unchanged": entry t is the price of the window's step t
             yield ('C19.make_vector.gridded_array_passes_through', S.forall(n, lambda t: S.eq(vec.f(t), S.mul(ctx['pf'](ctx['rI'](t)), w(t)))))
+            if case['convert']:
+                # C12: "per-step volume limits ... always scale with the actual length of the step" -- the ASSET's step (its own, possibly
+                # coarser, frequency), not the grid step it starts at
+                yield ('C12.make_vector.limit_given_by_name_follows_the_length_of_the_assets_step', S.forall(n, lambda t: S.eq(
+                    vec.f(t), S.mul(ctx['pf'](ctx['rI'](t)), dt.f(t)))))
         else:
             K, inn, v = ctx['K'], ctx['inn'], ctx['v']
             yield ('C19.make_vector.value_of_the_containing_interval', S.forall(n, lambda t: S.forall(K, lambda j: S.implies(
@@ -380,10 +388,16 @@ class MakeVector(Contract):
         import eaopack as eao
         from pyvc import native as N
         T = int(P['g_T'])
-        tg, syn = N.synthetic_grid(T, P.get('dt'))
-        pts = list(tg.timepoints) + [tg.end]
-        a, b = int(P['win_a']), int(P['win_b'])
-        asset = eao.assets.Asset(name='asset_name', start=pts[a], end=pts[b])
+        if case.get('coarse'):
+            # hourly grid of an even number of steps, the asset on 2-hour steps over the whole horizon
+            T = T + T % 2
+            tg, syn = N.synthetic_grid(T, None)
+            asset = eao.assets.Asset(name='asset_name', freq='2h')
+        else:
+            tg, syn = N.synthetic_grid(T, P.get('dt'))
+            pts = list(tg.timepoints) + [tg.end]
+            a, b = int(P['win_a']), int(P['win_b'])
+            asset = eao.assets.Asset(name='asset_name', start=pts[a], end=pts[b])
         asset.set_timegrid(tg)
         R = tg.restricted
         n = int(R.T)
@@ -401,7 +415,7 @@ class MakeVector(Contract):
             ctx['vf'] = lambda t: arr[int(t)]
         elif kind == 'key':
             value = 'p'
-            pr = [float(x) for x in P['price']]
+            pr = [float(x) for x in (list(P['price']) * 2)[:T]]
             prices = {'p': np.asarray(pr, dtype=float)}
             ctx['pf'] = lambda t: pr[int(t)]
         else:
